@@ -483,8 +483,21 @@ def constVal : Const → Res
   | .ellipsis => .error (.unsupported "ellipsis")
   | .opaque t => .error (.unsupported ("opaque constant " ++ t))
 
+/-- `d[k] = v` on the two parallel lists: an equal key keeps its place and takes the new value (Python: the
+    later entry of a dictionary display overrides the earlier one), a new key goes to the end -/
+def dictInsert (k v : Val) : List Val → List Val → List Val × List Val
+  | k' :: ks, v' :: vs =>
+    if pyEq k k' then (k' :: ks, v :: vs)
+    else ((k' :: (dictInsert k v ks vs).1), (v' :: (dictInsert k v ks vs).2))
+  | _, _ => ([k], [v])
+
+def dictBuild : List Val → List Val → List Val → List Val → List Val × List Val
+  | k :: ks, v :: vs, ak, av => dictBuild ks vs (dictInsert k v ak av).1 (dictInsert k v ak av).2
+  | _, _, ak, av => (ak, av)
+
+/-- the value of a dictionary display: entries inserted left to right -/
 def mkDict (ks vs : List Val) : Res :=
-  if hasDupKey ks then .error (.unsupported "duplicate dictionary key") else .ok (.dict ks vs)
+  .ok (.dict (dictBuild ks vs [] []).1 (dictBuild ks vs [] []).2)
 
 /-- The name a comprehension binds, if its target is a plain name. -/
 def targetName : Expr → Option String
